@@ -157,6 +157,15 @@ struct Stats {
     issued: usize,
     result_len: usize,
     over_par: bool,
+    /// a failure / success was accepted for a request that had already run into the peer timeout
+    late_failure: u32,
+    late_success: u32,
+    /// a success was delivered while a request to a closer peer was still in flight (not timed out)
+    reordered: bool,
+    /// ... and at that moment a peer closer than both had already failed or timed out
+    reordered_behind_failed: bool,
+    /// the lookup finished on its own with a failed / timed-out peer closer than the farthest result
+    finished_past_failed_closer: bool,
 }
 
 fn fail(sig: &str, d: Value) -> Result<Stats, Outcome> {
@@ -200,6 +209,9 @@ fn drive(c: &Case) -> Result<Stats, Outcome> {
     let mut stuck = 0;
     let mut self_finished = false;
     let mut finished = false;
+    // peers for which a second, contradictory report (a success after the request had already been
+    // answered with a failure) was delivered and refused by the iterator
+    let mut dup_success_after_failure: BTreeSet<usize> = BTreeSet::new();
     let mut fixed_cursor = 0usize;
     let mut batch_left = c.batch.max(1);
     let mut steps = 0usize;
@@ -328,6 +340,9 @@ fn drive(c: &Case) -> Result<Stats, Outcome> {
                     if r {
                         return fail("C39:result-accepted-for-peer-not-waited-for", ctx!("peer": i));
                     }
+                    if ok && answered.contains(&i) && !succeeded.contains(&i) {
+                        dup_success_after_failure.insert(i);
+                    }
                 }
             }
             Some(Step::ForceFinish) => {
@@ -381,7 +396,10 @@ fn drive(c: &Case) -> Result<Stats, Outcome> {
     st.result_len = res_idx.len();
     for i in &res_idx {
         if !succeeded.contains(i) {
-            return fail("C39:result-contains-peer-that-did-not-respond", ctx!("peer": i, "result": res_idx));
+            // the disjoint iterator returned `false` for the duplicate report, yet a path that did not
+            // initiate the request took it for the answer it was waiting for
+            let sig = if c.kind == Kind::Disjoint && dup_success_after_failure.contains(i) { "C39:disjoint-refused-duplicate-success-still-counted-by-another-path" } else { "C39:result-contains-peer-that-did-not-respond" };
+            return fail(sig, ctx!("peer": i, "result": res_idx));
         }
     }
     let uniq: BTreeSet<usize> = res_idx.iter().cloned().collect();
@@ -422,6 +440,7 @@ fn drive(c: &Case) -> Result<Stats, Outcome> {
                 if self_finished {
                     if let Some(far) = res_idx.last() {
                         let far_d = dist(*far);
+                        st.finished_past_failed_closer = issued.iter().any(|(i, d)| dist(*i) < far_d && !succeeded.contains(i) && (answered.contains(i) || *d <= final_now));
                         for (i, _) in learned.iter() {
                             if dist(*i) < far_d {
                                 let resolved = answered.contains(i) || issued.get(i).is_some_and(|d| *d <= final_now);
@@ -466,6 +485,17 @@ fn deliver(
 ) -> Result<(), Outcome> {
     let late = issued[&i] <= now_ms;
     let was_finished = it.is_finished();
+    if ok && !was_finished && c.kind != Kind::Fixed {
+        let d = |j: usize| xor(&uni[j].1, &c.target);
+        let closer_in_flight = issued.iter().any(|(j, dl)| *j != i && !answered.contains(j) && *dl > now_ms && d(*j) < d(i));
+        if closer_in_flight {
+            st.reordered = true;
+            let closer_dead = issued.iter().any(|(j, dl)| *j != i && d(*j) < d(i) && ((answered.contains(j) && !succeeded.contains(j)) || (!answered.contains(j) && *dl <= now_ms)));
+            if closer_dead {
+                st.reordered_behind_failed = true;
+            }
+        }
+    }
     let closer_idx: Vec<usize> = c.answers.get(i).map(|v| v.iter().map(|x| *x as usize % n).collect()).unwrap_or_default();
     let r = if ok { it.on_success(&uni[i].0, closer_idx.iter().map(|j| uni[*j].0).collect()) } else { it.on_failure(&uni[i].0) };
     trace.push(format!("{} {i}{} -> {r}", if ok { "success" } else { "failure" }, if late { " (late)" } else { "" }));
@@ -494,6 +524,11 @@ fn deliver(
         }
         if late {
             st.late += 1;
+            if ok {
+                st.late_success += 1;
+            } else {
+                st.late_failure += 1;
+            }
         }
     }
     if late {
@@ -519,6 +554,11 @@ fn check_with(c: &Case, small: bool) -> Outcome {
                 (st.failures > 0, "failure"),
                 (st.timeouts > 0, "timeout"),
                 (st.late > 0, "late-result-accepted"),
+                (st.late_failure > 0, "late-failure-accepted"),
+                (st.late_success > 0, "late-success-accepted"),
+                (st.reordered, "success-while-closer-peer-in-flight"),
+                (st.reordered_behind_failed, "success-while-closer-peer-in-flight+even-closer-peer-failed"),
+                (st.finished_past_failed_closer, "self-finished-past-failed-closer-peer"),
                 (st.stalled, "stalled"),
                 (st.over_par, "in-flight>parallelism"),
                 (st.hops >= 2, "hops>=2"),
